@@ -129,10 +129,18 @@ ENT_VARIANTS = {"<": ["&lt;", "&#60;", "&#x3c;", "&#x3C;"], "&": ["&amp;", "&#38
                 "'": ["&#39;", "&apos;"], ">": ["&gt;", ">"]}
 
 
+def num_ref(c, rnd):
+    """a numeric character reference for c in one of its spellings"""
+    o = ord(c)
+    return rnd.choice(["&#%d;", "&#x%x;", "&#X%X;", "&#x0%x;", "&#0%d;"]) % o
+
+
 def esc_text(s, rnd):
     out = []
     for c in s:
-        if c == "<" or c == "&":
+        if c not in "{}" and rnd.random() < 0.04:
+            out.append(num_ref(c, rnd))
+        elif c == "<" or c == "&":
             out.append(rnd.choice(ENT_VARIANTS[c]))
         elif c == ">" and rnd.random() < 0.3:
             out.append("&gt;")
@@ -144,7 +152,9 @@ def esc_text(s, rnd):
 def esc_attr(s, q, rnd):
     out = []
     for c in s:
-        if c == "&":
+        if c not in "{}" and rnd.random() < 0.04:
+            out.append(num_ref(c, rnd))
+        elif c == "&":
             out.append(rnd.choice(ENT_VARIANTS["&"]))
         elif c == q:
             out.append(rnd.choice(ENT_VARIANTS[c]))
